@@ -1,4 +1,115 @@
+(* C01/Props.v — the property theorems.  Nothing else.
+
+   font, tables          : C01/Model.v   (M_write_derive = write.go/font.go, M_codec = what the
+                                          OS/2 and head encoders+readers do to the flag,
+                                          permission and time fields, M_read_merge = read.go)
+   normalize, in_range,
+   canonical             : C01/Spec.v
+   M_name_encode,
+   M_table_map           : C01/Model2.v  (the two Go map iterations on Write's path)          *)
 From Coq Require Import List NArith ZArith Bool.
-From C01 Require Import Str Model Proofs.
-Theorem placeholder_thm : True. Proof. exact placeholder. Qed.
-Print Assumptions placeholder_thm.
+From Common Require Import Outcome.
+From Gen Require C01.
+From C01 Require Import Str Model Spec Model2 Proofs Proofs_order Proofs_merge.
+Import ListNotations.
+
+(* P1.  Writing a font value in field range (with a timestamp set) and reading
+   the tables back yields the normal form of the value: Write does not fail,
+   and Read's merge of what the table codecs deliver is exactly normalize F. *)
+Theorem read_write_normal_form :
+  forall F : font, in_range F = true -> has_timestamp F = true ->
+    exists T, M_write_derive F = Ok T /\ M_read_merge (M_codec T) = Ok (normalize F).
+Proof. intros F Hr _. exact (write_read_normal F Hr). Qed.
+Print Assumptions read_write_normal_form.
+
+(* P1.  The normal form is idempotent ... *)
+Theorem normalize_idempotent :
+  forall F : font, in_range F = true -> normalize (normalize F) = normalize F.
+Proof. intros F Hr. exact (normalize_idem F (in_range_version F Hr)). Qed.
+Print Assumptions normalize_idempotent.
+
+(* ... hence generation 2 equals generation 1: one more write/read cycle of
+   the re-read font F1 reproduces F1 (and, M_write_derive being a function,
+   the same tables). *)
+Theorem generation_two_equals_generation_one :
+  forall (F : font) T1 F1, in_range F = true -> M_cycle F = Ok (T1, F1) ->
+    exists T2, M_cycle F1 = Ok (T2, F1).
+Proof. exact second_generation. Qed.
+Print Assumptions generation_two_equals_generation_one.
+
+(* P1.  The written file is a function of the font value: the only inputs of
+   Write that are not part of the value are the iteration orders of three Go
+   maps (the two language tables ranged over by name.Info.Encode, and
+   glyf.Outlines.Tables) and the clock.  For every pair of iteration orders
+   the name table (sorted records AND string storage) is the same, every
+   entry of the table map is the same, and with a timestamp set the clock is
+   not read. *)
+Theorem write_is_function_of_value :
+  forall (F : font) (enc_mac enc_win : str -> str) (ident : str),
+    has_timestamp F = true ->
+    (forall apple1 apple2 ms1 ms2 win_enc,
+        order_of Gen.C01.c01_name_appleBCP apple1 -> order_of Gen.C01.c01_name_appleBCP apple2 ->
+        order_of Gen.C01.c01_name_msBCP ms1 -> order_of Gen.C01.c01_name_msBCP ms2 ->
+        let nt := ntable_of (M_write_name F) ident in
+        M_name_encode enc_mac enc_win apple1 ms1 win_enc (fst (write_name_tables nt)) (snd (write_name_tables nt))
+        = M_name_encode enc_mac enc_win apple2 ms2 win_enc (fst (write_name_tables nt)) (snd (write_name_tables nt)))
+    /\ (forall d extra1 extra2,
+        NoDup (map fst extra1) -> NoDup (map fst extra2) -> (forall e, In e extra1 <-> In e extra2) ->
+        forall tag, tm_get tag (M_table_map d extra1) = tm_get tag (M_table_map d extra2))
+    /\ n_ident_day (M_write_name F) <> None.
+Proof.
+  intros F enc_mac enc_win ident Ht. split; [|split].
+  - intros. apply name_encode_order_independent; assumption.
+  - exact table_map_order_independent.
+  - apply ident_day_from_font. exact Ht.
+Qed.
+Print Assumptions write_is_function_of_value.
+
+(* Lossless clause: a value that is already consistent (canonical, Spec.v)
+   comes back exactly. *)
+Theorem lossless_on_canonical :
+  forall F : font, in_range F = true -> canonical F = true -> exists T, M_cycle F = Ok (T, F).
+Proof. exact canonical_cycle. Qed.
+Print Assumptions lossless_on_canonical.
+
+(* Clause (b) in the model: whatever tables Read accepts, the font it builds
+   is reproduced by one write/read cycle — provided the tables are what the
+   per-table decoders can deliver (tables_decoded), the underline metrics are
+   integral, and the font is not in the recorded input class bold_settled
+   excludes (weight class rounding to Bold without a bold flag; see
+   Examples.merge_result_normal_refuted). *)
+Theorem read_write_read_fixed_point :
+  forall (T : tables) (F0 : font),
+    M_read_merge T = Ok F0 -> tables_decoded T = true ->
+    bold_settled F0 = true -> underline_settled F0 = true -> in_range F0 = true ->
+    exists T', M_cycle F0 = Ok (T', F0).
+Proof. exact read_fixed_point. Qed.
+Print Assumptions read_write_read_fixed_point.
+
+(* The two substring tests of read.go, decided for every font: the sub-family
+   name Write derives says "Italic" iff the font is italic and not oblique,
+   and says "Bold" (without "Semi Bold"/"Extra Bold") iff name_says_bold. *)
+Theorem subfamily_tests :
+  forall F : font,
+    contains s_Italic (subfamily F) = negb (f_oblique F) && f_italic F /\
+    contains s_Bold (subfamily F) && negb (contains s_SemiBold (subfamily F))
+      && negb (contains s_ExtraBold (subfamily F)) = name_says_bold F.
+Proof.
+  intros F. split.
+  - exact (Proofs_sub.subfamily_italic_test F).
+  - exact (Proofs_sub.subfamily_bold_test F).
+Qed.
+Print Assumptions subfamily_tests.
+
+(* The version survives to three decimals: printing (%.03f) and parsing
+   (VersionFromString) a 16.16 version gives the value normalize names. *)
+Theorem version_print_parse :
+  forall v : N, (ver_to_milli v < 65536000)%N ->
+    version_from_string (s_Version_sp ++ version_string v) = Some (norm_version v)
+    /\ ver_to_milli (norm_version v) = ver_to_milli v.
+Proof.
+  intros v H. split.
+  - unfold version_string. apply Proofs_str.version_from_string_print.
+  - unfold norm_version. apply Proofs_str.ver_to_milli_of_decimal. exact H.
+Qed.
+Print Assumptions version_print_parse.
